@@ -42,6 +42,15 @@ func runC07(o opts) error {
 				scns = append(scns, c07.Session(rng.Intn(1<<15), rng.Intn(2) == 0, rng.Intn(7)))
 			}
 		}
+		// terminals that name themselves and give other DA1 service classes: neither advertises anything
+		for _, id := range []string{"tmux 3.4", "tmux 3.3a", "tmux 3.2", "tmux 3.5a", "tmux 3.40", "kitty 0.35.2", "foot(1.16.2)", "XTerm(388)", "WezTerm 20240203"} {
+			for _, mask := range []int{0, 1 << 1, 1<<5 | 1<<8, rng.Intn(1 << 15)} {
+				scns = append(scns, c07.TermSession(mask, id, 0))
+			}
+		}
+		for _, class := range []int{1, 4, 6, 61, 64, 65} {
+			scns = append(scns, c07.TermSession(0, "", class), c07.TermSession(1<<6, "", class), c07.TermSession(rng.Intn(1<<15), "", class))
+		}
 	}
 	sink, err := trace.NewSink(o.out, o.shards)
 	if err != nil {
